@@ -34,6 +34,8 @@ func init() {
 }
 
 func runC04(c *Ctx) {
+	c.NotArmed("C04.R1(b,c)", "permit hand-off around the blocking dispatch/wait and the goroutine body's release are C02.R4; discharged under C02, not duplicated here")
+	c.NotArmed("C04.R4.postcopy-after-successors", "same obligation as C02.R1 (wait-before-push); discharged under C02")
 	c04R1(c)
 	c04R2(c)
 	c04R3(c)
@@ -628,7 +630,7 @@ func c04R4(c *Ctx) {
 		acts = append(acts, c04Instrs(isCallTo(copyNode)(T))...)
 		acts = append(acts, c04Instrs(isCallTo(mountFn)(T))...)
 		a, b := c04AnyReach(acts, acts)
-		c.Check(R, c01ClosureKey(T, "traverse")+"|one-terminal-action-per-node", T.Pos(), a == nil && len(acts) >= 3,
+		c.Check(R, c01ClosureKey(T, "traverse")+"|one-terminal-action-per-node", T.Pos(), a == nil && len(acts) >= 2,
 			ifelse(a == nil, fmt.Sprintf("OnCopySkipped / node copy / mount-or-copy exclude each other and none repeats (%d sites)", len(acts)), fmt.Sprintf("%s can be followed by %s for the same node", instrLabelOr(a), instrLabelOr(b))))
 	}
 	// --- mount-or-copy ---
@@ -774,6 +776,12 @@ var c04Mutants = []Mutant{
 	{Name: "committed-check-dropped", File: "copy.go",
 		Old: "\t\tdone, committed := tracker.TryCommit(desc)\n\t\tif !committed {\n\t\t\treturn nil\n\t\t}\n\t\tdefer func() {",
 		New: "\t\tdone, committed := tracker.TryCommit(desc)\n\t\t_ = committed\n\t\tdefer func() {", Expect: "C04.R2.single-owner|~.copyGraph$claim"},
+	{Name: "indexall-committed-ignored", File: "internal/graph/memory.go",
+		Old: "\t\t_, committed := tracker.TryCommit(desc)\n\t\tif !committed {\n\t\t\treturn nil\n\t\t}\n", New: "\t\t_, committed := tracker.TryCommit(desc)\n\t\t_ = committed\n", Expect: "C04.R2.single-owner|(*~/internal/graph.Memory).IndexAll$claim"},
+	{Name: "limiter-always-fresh", File: "copy.go",
+		Old: "\tif limiter == nil {\n", New: "\t{\n", Expect: "C04.R3.limiter-per-call|~.copyGraph|"},
+	{Name: "mount-flag-inverted", File: "copy.go",
+		Old: "\t\tif !mountFailed {\n\t\t\t// mounted, success", New: "\t\tif mountFailed {\n\t\t\t// mounted, success", Expect: "C04.R4.callback-sequencing|~.mountOrCopyNode|loop-continues-only-after-fallback"},
 	{Name: "limiter-per-node", File: "copy.go",
 		Old: "\t\t\tif err := syncutil.Go(ctx, limiter, fn, successors...); err != nil {", New: "\t\t\tif err := syncutil.Go(ctx, semaphore.NewWeighted(int64(opts.Concurrency)), fn, successors...); err != nil {", Expect: "C04.R3.limiter-per-call"},
 	{Name: "concurrency-default-dropped", File: "extendedcopy.go",
